@@ -2,7 +2,7 @@
 """Syntactic mutation sweep over one source file of pitt-rnel/pyrtma, judged by whole checks (`./check Cnn`).
 
     tools/mutate_check.py <worktree> <relative file> --checks C09[,C10...] [--only f1,f2] [--skip f1,f2]
-                          [--limit N] [--lines l1,l2] [--out file.jsonl] [--timeout S] [--dry]
+                          [--limit N] [--lines l1,l2] [--from N] [--out file.jsonl] [--timeout S] [--dry]
 
 The worktree is a scratch `git worktree` of /repo (never /repo itself).  For every mutant (comparison / boolean operator
 swaps, 0<->1 constants, deleted simple statements, negated conditions, swapped `continue`/`break`, +/- swaps) of the file
@@ -30,7 +30,10 @@ assert os.path.realpath(wt) != "/repo"
 path = os.path.join(wt, rel)
 src = open(path).read()
 tree = ast.parse(src)
-scratch = tempfile.mkdtemp(prefix="mutchk_")
+# scratch directory next to the output file (a shared /tmp is swept by other people's clean-ups)
+_sdir = os.path.dirname(os.path.abspath(arg("--out"))) if arg("--out") else None
+scratch = tempfile.mkdtemp(prefix="mutchk_", dir=_sdir)
+start_from = int(arg("--from", 1))
 # the checks of the clone this tool lives in (never another clone: they would share its Lean build directory)
 VERIF = os.environ.get("VERIF_ROOT") or os.path.dirname(os.path.dirname(os.path.abspath(__file__)))
 dry = "--dry" in sys.argv
@@ -125,6 +128,7 @@ def apply(kind, node, i):
 def run_check(prop):
     ev, rp = os.path.join(scratch, "evidence"), os.path.join(scratch, "replays")
     shutil.rmtree(rp, ignore_errors=True)
+    os.makedirs(scratch, exist_ok=True)
     env = dict(os.environ, PYRTMA_REPO=wt, VERIF_EVIDENCE_DIR=ev, VERIF_REPLAYS_DIR=rp, VERIF_NOCACHE="1")
     t0 = time.time()
     # own session: on a time-out the whole process group goes (a mutant that loops for ever inside a worker pool would
@@ -183,6 +187,8 @@ try:
         except SyntaxError:
             continue
         n += 1
+        if n < start_from:
+            continue
         if dry:
             print(json.dumps({"n": n, "kind": kind, "func": f, "line": getattr(node, "lineno", 0), "before": before,
                               "after": after}), file=out, flush=True)
